@@ -212,8 +212,8 @@ Proof.
   assert (Hnb : FSModel.link_body s (P_LINK s o) = None).
   { unfold FSModel.link_body, FSModel.kind_of. rewrite nth_overflow by (unfold P_LINK, PB; lia). reflexivity. }
   rewrite Hnb.
-  assert (Hle : Nat.leb (S (S (PB s))) (P_LINK s o) = true) by (apply Nat.leb_le; unfold P_LINK; lia).
-  rewrite Hle. replace (P_LINK s o - S (S (PB s)))%nat with o by (unfold P_LINK; lia).
+  assert (Hle : Nat.leb (PB s + NP) (P_LINK s o) = true) by (apply Nat.leb_le; unfold P_LINK; lia).
+  rewrite Hle. replace (P_LINK s o - (PB s + NP))%nat with o by (unfold P_LINK; lia).
   rewrite Hpath. cbn [as_bytes]. rewrite Hlen. cbn [bind Static.run].
   rewrite (run_bind s rp), run_close. cbn [Static.run].
   unfold t3. rewrite tdel_cons_same; [reflexivity|].
